@@ -120,8 +120,17 @@ func (e *Engine) prune() {
 		for _, n := range e.sortedNonces(a) {
 			for _, m := range append([]*MTx(nil), e.live[a][n]...) {
 				age := now - m.AcceptedAt
+				codeChanged := false
+				if t, ok := m.Tx.(*types.Transaction); ok && t.To() != nil {
+					codeChanged = e.hasCode(*t.To()) != m.ToCode
+				}
 				switch {
 				case n < c:
+					e.dropLive(m)
+				case codeChanged:
+					// the gas rule it was admitted under no longer applies: the
+					// node may (should) have dropped it
+					e.C.Probe("invalidated-code-changed")
 					e.dropLive(m)
 				case age >= e.dropGood:
 					e.C.Probe("excused-age-good")
